@@ -128,14 +128,27 @@ func VHQueueStep() {
 	}
 }
 
-// VHQueueRun: bounded runs from the zero value (base case of the induction, and the only
-// place where the capacities the code really produces matter): P phases of k enqueues then
-// d dequeues, k and d chosen by the solver, against a slice model.
+// VHQueueRun: bounded runs from the zero value through the public methods only (no assumption about the
+// representation): P phases of k enqueues then d dequeues, k and d chosen by the solver, against a slice model.
 func VHQueueRun() {
+	vQueueRun(false)
+}
+
+// VHQueueCalib: the same runs, checking at every step that the harness's reading of the representation
+// (vQueueInv, vQueueAbs) agrees with the list model. This is a check of the *harness's assumption*, not of the
+// property: VHQueueStep is only meaningful while it holds. If it fails while VHQueueRun passes, the queue's
+// representation has changed and the driver drops the step harness instead of reporting its verdicts.
+func VHQueueCalib() {
+	vQueueRun(true)
+}
+
+func vQueueRun(calib bool) {
 	maxA := vParam("A", 10)
 	phases := vParam("P", 2)
 	q := &Queue[int]{}
-	vAssert(vQueueInv(q), "zero value satisfies the invariant")
+	if calib {
+		vAssert(vQueueInv(q), "zero value satisfies the invariant")
+	}
 	model := []int{}
 	n := 0
 	for ph := 0; ph < phases; ph++ {
@@ -146,7 +159,9 @@ func VHQueueRun() {
 			q.Enqueue(v)
 			model = append(model, v)
 			vAssert(q.Size() == len(model), "size after enqueue in run")
-			vAssert(vQueueInv(q), "invariant after enqueue in run")
+			if calib {
+				vAssert(vQueueInv(q) && vEqInts(vQueueAbs(q), model), "representation as the harness reads it, after enqueue")
+			}
 		}
 		d := vChoose("deq"+vItoa(ph), len(model)+1)
 		for i := 0; i < d; i++ {
@@ -155,7 +170,9 @@ func VHQueueRun() {
 			vAssert(got == model[0], "dequeue order in run")
 			model = model[1:]
 			vAssert(q.Size() == len(model), "size after dequeue in run")
-			vAssert(vQueueInv(q), "invariant after dequeue in run")
+			if calib {
+				vAssert(vQueueInv(q) && vEqInts(vQueueAbs(q), model), "representation as the harness reads it, after dequeue")
+			}
 		}
 	}
 	vReach("run-end")
@@ -168,5 +185,10 @@ func VHQueueRun() {
 		vReach("empty-panics")
 	} else {
 		vAssert(false, "dequeue on an empty queue must panic")
+	}
+	if vTry(func() { q.Peek() }) {
+		vReach("empty-peek-panics")
+	} else {
+		vAssert(false, "peek on an empty queue must panic")
 	}
 }
